@@ -3,17 +3,17 @@ REG = dict(   # rename to REG once the findings below are triaged (fixed in /rep
     engine='E1-enum',
     technique='bounded-exhaustive enumeration of fully annotated programs of a typed grammar and of every single-point mutation of each (deviation bound 1, 2 for small programs), real `check` then real interpreter',
     text=("Base programs: fixed prefix (user enum Color, user struct Pt) + one function f with <=2 parameters over {Int, String, Bool, List<Int>, "
-          "Option<Int>, Color, Pt} whose body is one of 72 typed templates (arithmetic/comparison/equality/logic/concat operators, String/List/Option methods, "
-          "match on Option/enum incl. wildcard, field access, struct and list literals, if, let with and without annotation, for loop with assignment, closures "
+          "Option<Int>, Color, Pt} whose body is one of 81 typed templates (arithmetic/comparison/equality/logic/concat operators, String/List/Option methods, "
+          "match on Option/enum incl. wildcard, field access, struct and list literals, if, let with and without annotation, for loop with assignment, explicit early `return` (in an if, a match arm, a for and a while body, bare in a Unit function, and inside annotated closures bound by let or passed to map/filter), closures "
           "passed to map/filter, calls to a second user function, to built-ins and to constructors) + a main part calling f with two well-typed literal argument "
           "vectors. Depth 2 = one slot of a template expanded by every expression template of the slot's type. "
           "Mutants = EVERY single-point edit of each base program: each subexpression replaced by each of 19 literal alternatives (every grammar type, wrong-payload "
           "Option/List, empty list, tuple, closure, constructor, Float, Unit, throw) and by every name in scope, an unbound name and the function names; operator, "
           "callee, method name (17), field name, struct field/type name, pattern (11) and every annotation (10) replaced; an argument / parameter / struct field / "
-          "closure parameter dropped or added; a match arm or an else dropped; binders renamed. "
+          "closure parameter dropped or added; a match arm or an else dropped; a returned value dropped or added; binders renamed. "
           "quick: depth 1 (canonical parameter fill) with all edits + depth 2 for one outer context per (inner template, role of the slot) with all edits inside "
           "the expanded slot (11-literal alphabet): ~43k programs. thorough: depth 1 with every parameter/literal fill and depth 2 for every outer context, all "
-          "edits (~395k), plus every PAIR of disjoint edits (11-literal alphabet, leaves only) of the 72 depth-1 programs (~393k): deviation bound 2. "
+          "edits (~395k), plus every PAIR of disjoint edits (11-literal alphabet, leaves only) of the 81 depth-1 programs (~393k): deviation bound 2. "
           "Each program goes through the code path of `garden check`; programs with no error and no type-related warning are run (tick limit 50000). "
           "Oracle: the run does not end in an exception whose message matches one of the type-related templates of src/eval.rs "
           "(wrong type, arity, unbound variable, unknown method/field/type, non-exhaustive or ill-formed match). Exhaustive within these bounds; "
@@ -78,7 +78,7 @@ LINT_WARNINGS = [re.compile(p) for p in (
     r"^Function `[^`]*` calls itself on every code path, which will cause infinite recursion\.",
     r"^`[^`]*` cases after `_` are never executed\.", r"^All code paths in `[^`]*` return the same value `[^`]*`\.",
     r"^This expression has already appeared in this `[^`]*` chain\.", r"^This `_` case matches everything\.",
-    r"^`[^`]*` is assigned to itself\.",
+    r"^`[^`]*` is assigned to itself\.", r"^Unused value\.", r"^Unreachable code after `while` loop which never terminates\.",
 )]
 
 
@@ -326,7 +326,8 @@ def run(ctx):
     if quick:
         seen, sel = set(), []
         for b in depth2:
-            role = tg.slot_role(b[1], b[2])
+            # contexts that reach the same checker rule share one representative (thorough covers them all)
+            role = {"result of else branch": "result of if branch", "argument of builtin fun": "argument of user fun"}.get(role := tg.slot_role(b[1], b[2]), role)
             if (b[3], role) not in seen:
                 seen.add((b[3], role))
                 sel.append(b)
@@ -347,7 +348,7 @@ def run(ctx):
     # 1. base programs: all must be accepted and must not raise a type error (else the grammar is wrong -> machinery)
     ex.process([item(p, n) for n, p, _, _ in depth1 + depth2])
     n_base = ex.n["programs"]
-    if len(ex.rejected_bases) * 50 > n_base:
+    if len(ex.rejected_bases) * 4 > n_base:     # a few are checker incompleteness (or a checker change); most of them would be grammar drift
         raise Machinery(f"{len(ex.rejected_bases)} of {n_base} base programs of the typed grammar are rejected by check (grammar drift?): {ex.rejected_bases[:3]}")
     ctx.cov["base_programs_rejected_by_check"] = ex.rejected_bases
     # 2. single-point mutants
